@@ -93,6 +93,25 @@ chk('C20','exploration',
  'OnData runs on a pool goroutine; sleeps on the event loop are kept <= 200 us.',
  'runtime monitor: in-callback recorder (re-entrancy, keyed order) + quiescence predicate under injected delays','4/C20')
 
+
+EXTRA={
+ 'C01':'A creator-restart stage re-creates the /dev/shm path from a child process while this process still maps the old file and holds keyed buffers; half of the cases use exact-fit mappings.',
+ 'C02':'Half of the cases use mappings that end exactly at the last slot.',
+ 'C03':'A live-mapping stage attaches to a region 20000+ times while four goroutines allocate on it (one class exhausted) and compares the static geometry.',
+ 'C05':'Directed congested-control-connection cases (the harness owns the writing flag and fills the send channel for three write time-outs) and backlog phases with the consumer held.',
+ 'C07':'Deep-backlog cases: consumer held, thousands of elements queued, share memory exhausted, tail of the stream and its close on the socket.',
+ 'C10':'Also: session end after an already reported peer close (callback counts), and put-back of a pooled callback-mode stream from inside OnData.',
+ 'C11':'A ReadBytes inside a data callback is one of the call types.',
+ 'C12':'Fragmented delivery: the raw peer writes in pieces in a third of its cases, library-to-library pairings go through a fragmenting relay in odd rounds.',
+ 'C13':'A third of the child batches run with protocol tracing switched on.',
+ 'C14':'Close storms include sessions whose accept backlog is full; callback streams come in read-what-is-there, blocking-read and lingering (working on zero-copy data) styles.',
+ 'C15':'A third of the pools start with ring counters just below 2^32; capacities include 3, 5, 6 and 7.',
+ 'C17':'Also: a loss followed by a hot restart inside the rebuild interval, SessionManager.Close while a rebuild is in flight (watcher parked at a hook), bounded Close at the end of every scenario.',
+ 'C18':'C cases: a writer parked in EAGAIN while the held event loop lets readable and writable coalesce into one event.',
+ 'C19':'Extra rounds: one conn closed by several goroutines at once, a blocked Read released by a local Close, listener closed while a handshake is in flight.',
+}
+for _p,_t in EXTRA.items():
+    if _p in C: C[_p]['level_claimed']['text']=C[_p]['level_claimed']['text'].rstrip()+' '+_t
 import os
 C={p:v for p,v in C.items() if os.path.exists('/verif/harness/'+MOD[p]) and p not in HOLD}
 pending={p:'check under construction in this round (DESIGN.md section 4); not claimed yet' for p in props if p not in C}
